@@ -327,7 +327,7 @@ type genFrame struct {
 var wireIDs = []int{0, 1, 2, 3, 4, 5, 6, 7, 8, 9, 13, 14, 15, 16, 17, 20, 10, 11, 12, 18, 19, 21, 255}
 
 func hostileBencode(st *simrt.Stream) ([]byte, string) {
-	k := st.Choice(14)
+	k := st.Choice(17)
 	if (k == 2 || k == 3) && !st.Bool(1, 8) {
 		k = 11 // the declared-length allocation is a known finding: sample it, rarely
 	}
@@ -369,6 +369,34 @@ func hostileBencode(st *simrt.Stream) ([]byte, string) {
 		peers := drawBytes(st, unit*n)
 		nf := simrt.Pick(st, n-1, 0, st.Choice(n), n+1+st.Choice(3))
 		return refwire.BEncode(map[string]any{key: peers, key + ".f": drawBytes(st, nf)}), "pex-flags-length"
+	case 14, 15, 16:
+		// the keys the decoders know, with values of every type and of odd
+		// sizes (empty, one byte short, one byte long)
+		keys := []string{"m", "p", "v", "reqq", "ipv4", "ipv6", "yourip", "metadata_size", "upload_only", "e", "complete_ago",
+			"added", "added.f", "added6", "added6.f", "dropped", "dropped6", "msg_type", "piece", "total_size"}
+		d := map[string]any{}
+		for n := 1 + st.Choice(4); n > 0; n-- {
+			key := keys[st.Choice(len(keys))]
+			var v any
+			switch st.Choice(7) {
+			case 0:
+				v = []byte{}
+			case 1:
+				v = drawBytes(st, simrt.Pick(st, 1, 3, 4, 5, 15, 16, 17, 6, 18))
+			case 2:
+				v = int64(simrt.Pick(st, 0, 1, -1, 2, 255, 256, 65535, 65536, 1<<31, 1<<32))
+			case 3:
+				v = []any{}
+			case 4:
+				v = []any{int64(1), []byte("x")}
+			case 5:
+				v = map[string]any{}
+			default:
+				v = map[string]any{"ut_pex": int64(st.Choice(300)), "ut_metadata": []byte("2"), "": int64(0)}
+			}
+			d[key] = v
+		}
+		return refwire.BEncode(d), "known-keys-odd-values"
 	default:
 		return drawBytes(st, st.Choice(64)), "random-bytes"
 	}
